@@ -213,6 +213,7 @@ pub fn child(case_file: &str, out: &str) {
                     solver::verif::Event::Step(sch) => {
                         let up = sch.unserved_passengers();
                         writeln!(s, "P step {} {} {} {} {}", nsteps, up.0 + up.1, sch.maintenance_violation(), sch.number_of_vehicles(), sch.costs()).unwrap();
+                        s += &ctx.dump_schedule(&format!("S:step{}", nsteps), sch);
                         nsteps += 1;
                     }
                     solver::verif::Event::Stage(name, sch) => {
